@@ -53,14 +53,14 @@ def stage(v, prop, modes=("compiled",)):
     """adds the trace-validation coverage and violations of property `prop` to Verdict v"""
     q = get_tier() == "quick"
     items = [("random", seed() * 100003 + i) for i in range(120 if q else 1500)]
-    items += [("chain", 1200 if q else 5000), ("chain_rev", 1200 if q else 5000), ("fan", 600 if q else 2000), ("chain", 40), ("chain_rev", 40)]
+    items += [("chain", 1200 if q else 5000), ("chain_rev", 300 if q else 1000), ("fan", 600 if q else 2000), ("chain", 40), ("chain_rev", 40)]
     stats = collections.Counter()
     tstates = 0
     for mode in modes:
         scratch = build.build(mode)
         fails, st, samples, extra = par.run_workers("harness.mgr_record", {"items": items, "scratch": scratch, "mode": mode}, 12, collect=("traces",))
         stats.update(st)
-        traces = [t for key in sorted(extra["traces"]) for t in extra["traces"][key]]
+        traces = [t for key in sorted(extra["traces"]) for t in extra["traces"][key] if any(e["ev"] == "Begin" for e in t["events"])]   # (verify() clones managers)
         verdicts, ts = validate(traces)
         tstates += ts
         known = 0
@@ -80,7 +80,7 @@ def stage(v, prop, modes=("compiled",)):
             ent = v.known_hits.setdefault("struct-cycle-order", [0, "recorded trace with a structural-cycle update"])
             ent[0] += known
     v.cov["rule"] += (" || second stage, ManagerTrace.tla (code -> spec): seeded random histories over 30 nested locations x 60 calls (consumer-before-producer definitions, "
-                      "redefinitions, in-place operators, unregister), chains of 1200 (5000 thorough) tasks defined producer-first and consumer-first, a 600 (2000) wide fan, recorded by "
+                      "redefinitions, in-place operators, unregister), chains of 1200 (5000 thorough) tasks defined producer-first and of 300 (1000) defined consumer-first, a 600 (2000) wide fan, recorded by "
                       "harness-side wrappers and validated event by event: every Task.run triggered / at most once / not after a consumer, nothing triggered left un-run, no "
                       "expression-defined location stale at return (pull-model re-evaluation), index supports = derived from the registered tasks")
     for k in ("states",):
